@@ -234,6 +234,8 @@ pub struct ProbeLender<'s, S: Src> {
     /// optional indirection position -> source index (duplicates, permutations)
     order: Option<&'s [u32]>,
     n: usize,
+    /// one more item after the regular ones: the key with this source index (a duplicate)
+    tail: Option<u32>,
     pos: usize,
     stats: &'s Stats,
     fault: Fault,
@@ -245,12 +247,20 @@ pub struct ProbeLender<'s, S: Src> {
 impl<'s, S: Src> ProbeLender<'s, S> {
     pub fn new(src: S, stats: &'s Stats) -> Self {
         let n = src.len();
-        ProbeLender { src, order: None, n, pos: 0, stats, fault: Fault::None, tag: 0, max_rewinds: effective_limit(n), flushed: false }
+        ProbeLender { src, order: None, n, tail: None, pos: 0, stats, fault: Fault::None, tag: 0, max_rewinds: effective_limit(n), flushed: false }
     }
     pub fn with_order(mut self, order: &'s [u32]) -> Self {
         self.n = order.len();
         self.max_rewinds = effective_limit(self.n);
         self.order = Some(order);
+        self
+    }
+    /// Appends one more item: the key with source index `j` again.
+    pub fn with_tail(mut self, j: Option<u32>) -> Self {
+        if let Some(j) = j {
+            self.tail = Some(j);
+            self.n += 1;
+        }
         self
     }
     pub fn with_max_rewinds(mut self, max_rewinds: u32) -> Self {
@@ -296,9 +306,10 @@ impl<'s, S: Src> Lender for ProbeLender<'s, S> {
                 return Some(Err(injected(self.tag, &format!("next, pass {} position {}", pass, idx))));
             }
         }
-        let i = match self.order {
-            Some(o) => o[self.pos] as usize,
-            None => self.pos,
+        let i = match (self.tail, self.order) {
+            (Some(j), _) if self.pos + 1 == self.n => j as usize,
+            (_, Some(o)) => o[self.pos] as usize,
+            (_, None) => self.pos,
         };
         self.pos += 1;
         st.items.set(st.items.get() + 1);
